@@ -15,6 +15,7 @@ Script (JSON-able):
   ["observe", k, rest] ["retcopy", off, size, rest]
   ["call", kind, to, vexpr, rsz, callee, rest]       kind in CALL CALLCODE DELEGATECALL STATICCALL
   ["create", vexpr, init, rest]
+  ["if", expr, s1, s2]                               JUMPI on a word: s1 if it is non-zero, else s2
 expr: ["c", n] | ["a", i]   (constant | i-th 32-byte calldata argument of the transaction)
 """
 import copy
@@ -31,7 +32,7 @@ ENDS = {"stop": 0, "return": 1, "revert": 2, "invalid": 3}
 CREATE_BASE = 0xAAAA0000 + 1
 NARGS = 2
 CALLDATA = [("c", bytes(32))] + [("s", f"arg{i}", 32) for i in range(NARGS)]
-MARKERS = {3: "static-value-call", 4: "callcode-funds", 5: "retcopy-zero", 6: "depth-nocode"}
+MARKERS = {6: "depth-nocode"}
 
 
 # ------------------------------------------------------------------ work-around for harness/zeval.py
@@ -110,6 +111,9 @@ def _gen(s, pos, unit):
     if k == "retcopy":
         off, size = s[1], s[2]
         return [("push", size), ("push", off), ("push", OB + pos), "RETURNDATACOPY"] + _gen(s[3], pos + size, unit)
+    if k == "if":
+        lbl = unit.label("J")
+        return _ex(s[1]) + [("ref", lbl), "JUMPI"] + _gen(s[3], pos, unit) + [("label", lbl)] + _gen(s[2], pos, unit)
     if k == "call":
         _, kind, to, v, rsz, callee, rest, idx = s
         items = [("push", idx), "PUSH0", "MSTORE", ("push", rsz), ("push", OB + pos + 64), ("push", 0x60), "PUSH0"]
@@ -139,6 +143,10 @@ def _assign(s, scripts, existing):
     scripts bottom-up (their code is needed by the creator).  Mutates s."""
     k = s[0]
     if k == "end":
+        return
+    if k == "if":
+        _assign(s[2], scripts, existing)
+        _assign(s[3], scripts, existing)
         return
     if k == "call":
         _, kind, to, v, rsz, callee, rest = s[:7]
@@ -210,6 +218,8 @@ def enc_script(s, args):
         _, kind, to, v, rsz, callee, rest, idx = s
         vv = _val(v, args) if kind in ("CALL", "CALLCODE") else 0
         return [6, KINDS[kind], to, vv, rsz] + enc_script(callee, args) + enc_script(rest, args)
+    if k == "if":
+        return [8, _val(s[1], args)] + enc_script(s[2], args) + enc_script(s[3], args)
     if k == "create":
         _, v, init, rest, codehex = s
         code = bytes.fromhex(codehex)
@@ -309,6 +319,10 @@ def _gen_items(r, depth, n, in_init, after_call, tag):
     if n == 0:
         ek = r.choice(["return", "return", "return", "revert", "revert", "invalid", "stop"])
         return ["end", ek, tag]
+    if not in_init and r.random() < 0.1:
+        # a fork on a symbolic word of the input: halmos explores both sides
+        return ["if", ["a", r.randrange(NARGS)], _gen_items(r, depth, n - 1, in_init, after_call, tag),
+                _gen_items(r, depth, n - 1, in_init, after_call, tag ^ 0x5555)]
     choices = ["sstore", "sstore", "tstore", "observe", "observe"]
     if depth > 0:
         choices += ["call", "call", "call", "create"]
@@ -340,6 +354,42 @@ def _gen_items(r, depth, n, in_init, after_call, tag):
     raise ValueError(k)
 
 
+def gen_callfail(r):
+    """caller: [store;] call of a callee with >= 2 FAILING paths; observe; store; observe; ... --
+    a failed frame must leave the world as it was on EVERY path of the callee, also while the
+    caller goes on writing after the first of them has been explored"""
+    def failing(tag):
+        body = ["end", r.choice(["revert", "revert", "invalid"]), tag]
+        for _ in range(r.choice([0, 1, 1, 2])):
+            body = [r.choice(["sstore", "tstore"]), ["c", r.choice([0, 1, 2])], ["c", r.choice([5, 1000, 77])], body]
+        return body
+
+    def leaf(tag):
+        if r.random() < 0.8:
+            return failing(tag)
+        return ["sstore", ["c", r.choice([0, 1])], ["c", 9], ["end", "return", tag]]
+
+    def forked(tag):
+        inner = ["if", ["a", r.randrange(NARGS)], leaf(tag + 1), failing(tag + 2)] if r.random() < 0.4 else failing(tag + 1)
+        return ["if", ["a", r.randrange(NARGS)], failing(tag), inner]
+
+    t0 = r.randrange(1, 1 << 15)
+    kind = r.choice(["CALL", "CALL", "DELEGATECALL", "CALLCODE", "STATICCALL"])
+    slot = r.choice([0, 1, 2])
+    st = r.choice(["sstore", "sstore", "tstore"])
+    rest = ["observe", slot, [st, ["c", slot], ["c", r.choice([7, 1000])], ["observe", slot, ["end", r.choice(["return", "return", "revert"]), t0 + 3]]]]
+    if r.random() < 0.4:       # a second failing call: its rollback must keep the caller's own write
+        rest = ["observe", slot, [st, ["c", slot], ["c", 7],
+                ["call", r.choice(["CALL", "DELEGATECALL"]), r.choice(POOL), ["c", 0], 32, forked(t0 + 10),
+                 ["observe", slot, [st, ["c", slot], ["c", 8], ["observe", slot, ["end", "return", t0 + 6]]]]]]]
+    tree = ["call", kind, r.choice(POOL), ["c", 0] if r.random() < 0.7 else ["a", 0], r.choice([0, 32, 64]), forked(t0), rest]
+    if r.random() < 0.5:
+        tree = [st, ["c", slot], ["c", 3], tree]
+    if r.random() < 0.3:       # the whole thing one frame down
+        tree = ["call", r.choice(["CALL", "DELEGATECALL"]), POOL[0], ["c", 0], 320, tree, ["observe", slot, ["end", "return", t0 + 7]]]
+    return tree
+
+
 def tree_stats(s, acc=None, depth=0):
     acc = acc if acc is not None else {"depth": 0, "calls": 0, "creates": 0, "kinds": set(), "ends": set(), "nodes": 0, "symbolic_value": False}
     acc["nodes"] += 1
@@ -347,6 +397,10 @@ def tree_stats(s, acc=None, depth=0):
     if k == "end":
         acc["ends"].add(s[1])
         return acc
+    if k == "if":
+        acc["forks"] = acc.get("forks", 0) + 1
+        tree_stats(s[2], acc, depth)
+        return tree_stats(s[3], acc, depth)
     if k == "call":
         acc["calls"] += 1
         acc["kinds"].add(s[1])
@@ -500,6 +554,9 @@ def _values(s, out):
     k = s[0]
     if k == "end":
         return out
+    if k == "if":
+        _values(s[2], out)
+        return _values(s[3], out)
     if k == "call":
         if s[1] in ("CALL", "CALLCODE"):
             out.append(s[3])
